@@ -64,7 +64,7 @@ Section Mach.
     {| data := tset (tset (tconst {| value := dflt_node; next := 0; occ := false |}) 0 {| value := dflt_node; next := 0; occ := true |})
                     1 {| value := dflt_node; next := 0; occ := true |};
        buckets := tconst 0; nb := bmask + 1; cap := capacity; min_free := 2; last_index := 1; real_size := 1 |}.
-  Definition init_core : state := {| tbl := init_table; opc := {| cdata := tconst None; Glue.cmask := cmask0 |}; sfuel := N.to_nat capacity |}.
+  Definition init_core : state := {| tbl := init_table; opc := {| cdata := tconst None; Glue.cmask := cmask0 |}; sfuel := N.to_nat capacity; peak := 1 |}.
   Definition init : mstate := {| core := init_core; szc := {| sdata := tconst None; smask := smask0 |} |}.
 
   Definition regs := list (option ref).       (* None = dead (skipped line, or not marked by a collection) *)
@@ -284,7 +284,8 @@ Section Mach.
         + intros i j (Ho & H0 & Hp) _ _. apply Hocc in Ho. unfold pin in Hp. apply N.eqb_neq in Hp. lia.
         + intros i Hp. unfold pin in Hp. apply N.eqb_eq in Hp. apply Hocc. auto.
       - apply Hocc. auto.
-      - cbn [init_core sfuel tbl init_table cap]. lia. }
+      - cbn [init_core sfuel tbl init_table cap]. lia.
+      - unfold Peak; cbn [init_core init_table peak last_index real_size]. lia. }
     assert (Hnocell : forall i n, ccell init_core i = Some n -> False).
     { intros i n Hc. apply ccell_some in Hc. destruct Hc as (Ho & Hi & _). apply Hocc in Ho. lia. }
     unfold Good; cbn [fst snd init core szc]. splits.
